@@ -250,3 +250,46 @@ def no_stale_loop_variables(ctx, rep, R, rel, what, min_functions=3):
     rep.ob(R, rel, "no loop variable is read after its loop has ended (%s)" % what, not hits,
            "%s — the name still holds whatever the loop's last iteration left in it (or is unbound when the loop did not run): an item is emitted under the "
            "last attribute's name, an element is taken at the last index, ..." % "; ".join(sorted(set(hits))[:4]))
+
+
+# -- a one-shot iterator consumed more than once ------------------------------------------------------------------------------
+def reused_iterators(fn):
+    """[(name, lineno)]: a local bound to a generator expression / map() / filter() / zip() / iter() / reversed() outside a loop and iterated
+    (for ... in <name>, or passed to a consuming call) inside a loop that does not rebind it: the second iteration finds it exhausted"""
+    one_shot = {}
+    for st in ast.walk(fn):
+        if isinstance(st, ast.Assign) and len(st.targets) == 1 and isinstance(st.targets[0], ast.Name):
+            v = st.value
+            if isinstance(v, ast.GeneratorExp) or (isinstance(v, ast.Call) and isinstance(v.func, ast.Name) and v.func.id in ("map", "filter", "zip", "iter", "reversed", "enumerate")):
+                one_shot.setdefault(st.targets[0].id, []).append(st)
+    out = []
+    for name, defs in one_shot.items():
+        for lp in ast.walk(fn):
+            if not isinstance(lp, (ast.For, ast.While)):
+                continue
+            inside = {id(x) for b in lp.body for x in ast.walk(b)}
+            if any(id(d) in inside for d in defs):
+                continue  # re-created in every iteration
+            rebinds = any(isinstance(x, ast.Name) and x.id == name and isinstance(x.ctx, ast.Store) and id(x) in inside for x in ast.walk(lp))
+            if rebinds:
+                continue
+            for x in ast.walk(lp):
+                if id(x) in inside and isinstance(x, (ast.For, ast.comprehension)) and isinstance(x.iter, ast.Name) and x.iter.id == name:
+                    out.append((name, getattr(x, "lineno", getattr(x.iter, "lineno", lp.lineno))))
+    return out
+
+
+def no_reused_iterators(ctx, rep, R, rel, what, min_functions=3):
+    from ..engine import AnalysisError, MechanismMissing
+    probe = ast.parse("def f(files, models):\n    cands = (p for p in files if p.stem in models)\n    for m in models:\n        for p in cands:\n            pass\n").body[0]
+    ok_probe = ast.parse("def f(files, models):\n    for m in models:\n        cands = (p for p in files)\n        for p in cands:\n            pass\n").body[0]
+    if [v for v, _l in reused_iterators(probe)] != ["cands"] or reused_iterators(ok_probe):
+        raise AnalysisError(R, "self-test of the reused-iterator detector failed")
+    mod = ctx.module(rel, R)
+    fns = [f for f in ast.walk(mod) if isinstance(f, (ast.FunctionDef, ast.AsyncFunctionDef))]
+    if len(fns) < min_functions:
+        raise MechanismMissing(R, "only %d function(s) scanned in %s" % (len(fns), rel))
+    hits = ["%s: `%s` (line %d)" % (f.name, v, ln) for f in fns for v, ln in reused_iterators(f)]
+    rep.ob(R, rel, "no one-shot iterator is iterated in a loop it was created outside of, in " + what, not hits,
+           "%s — a generator yields its elements once: from the second iteration of the enclosing loop on it is empty, and what was found for the "
+           "first request is `not there` for every later one" % "; ".join(hits[:4]))
